@@ -876,12 +876,27 @@ func (w *World) apThrough(v ssa.Value, depth int) string {
 	}
 	var ret ssa.Value
 	n := 0
+	var real []ssa.Value
 	allInstrs(h, func(in ssa.Instruction) {
 		if rt, ok := in.(*ssa.Return); ok && rt.Block() != h.Recover && len(rt.Results) > resIdx {
 			n++
 			ret = rt.Results[resIdx]
+			// a constant or a package-level "no value" (nil, "", uuid.Nil) on a failure return is not what the helper computes
+			switch x := w.Resolve(ret).(type) {
+			case *ssa.Const:
+				return
+			case *ssa.UnOp:
+				if _, isGlobal := x.X.(*ssa.Global); isGlobal {
+					return
+				}
+			}
+			real = append(real, ret)
 		}
 	})
+	if n > 1 && len(real) == 1 {
+		// several returns, one of which yields a computed value (the others report "nothing"): the value of the helper
+		n, ret = 1, real[0]
+	}
 	if n != 1 {
 		return w.AP(v)
 	}
